@@ -15,3 +15,15 @@ package record
 //@   ensures keeps: keeper.idsBelowCounter
 //@   ensures count: keeper.CTR == len(data.Records)
 //@ end
+
+// Export lists the stored records in key (= id) order; ids and the counter are not part of the genesis state.
+//@ func ExportGenesis
+//@   property C12
+//@   returns gs
+//@   invariant #1 pos:    0 <= it_idx && it_idx <= it_n && len(l_records) == it_idx
+//@   invariant #1 listed: forall j:Int :: 0 <= j && j < it_idx ==> l_records[j] == get(records, it_seq[j])
+//@   ensures complete: forall i:Bytes :: has(records, i) ==> 0 <= itpos(i) && itpos(i) < len(gs.Records) && gs.Records[itpos(i)] == get(records, i)
+// import re-adds record j of this list with counter j (InitGenesis#count/ctr), so a record keeps its id only if it
+// was created with the counter equal to its position in id order
+//@   ensures ids_reproducible: forall i:Bytes :: has(records, i) ==> keeper.ctrOf(i) == itpos(i)
+//@ end
